@@ -1,10 +1,13 @@
 package main
 
 import (
+	"bytes"
 	"fmt"
 	"go/ast"
 	"go/constant"
+	"go/printer"
 	"go/token"
+	"strings"
 )
 
 // C17 — what the reader models take from the source as numbers or integer
@@ -23,6 +26,10 @@ func init() {
 			fmt.Fprintf(&e.b, "Definition c17_chunk : Z := %s.\n", zlit(v))
 		}
 		intLitsInFunc(repo, e, ".", "headReader.Read", "c17_head_literals")
+		// headReader.Read is transcribed statement by statement by the model; its
+		// integer literals are the same before and after the repair that cuts the
+		// read to h.n rows, so the (comment-free, whitespace-normalised) body is pinned
+		c17FuncText(repo, e, ".", "headReader.Read", "c17_head_read_src")
 		intLitsInFunc(repo, e, "exec", "taskBufferReader.Read", "c17_taskbuf_literals")
 		intLitsInFunc(repo, e, "sliceio", "multiReader.Read", "c17_multi_sliceio_literals")
 		intLitsInFunc(repo, e, "exec", "multiReader.Read", "c17_multi_exec_literals")
@@ -65,4 +72,25 @@ func c17FlagIntDefault(repo string, e *emitter, dir, name string) (constant.Valu
 		return nil, false
 	}
 	return found, true
+}
+
+// c17FuncText emits the whitespace-normalised source of a function body as a Coq string.
+func c17FuncText(repo string, e *emitter, dir, fn, coq string) {
+	p, err := loadPkg(repo, dir)
+	if err != nil {
+		e.fail("%v", err)
+		return
+	}
+	fd := p.findFunc(fn)
+	if fd == nil || fd.Body == nil {
+		e.fail("function %s.%s not found", dir, fn)
+		return
+	}
+	var b bytes.Buffer
+	if err := printer.Fprint(&b, p.fset, fd.Body); err != nil {
+		e.fail("cannot print %s.%s: %v", dir, fn, err)
+		return
+	}
+	txt := strings.Join(strings.Fields(b.String()), " ")
+	fmt.Fprintf(&e.b, "Definition %s : string := \"%s\"%%string.\n", coq, strings.ReplaceAll(txt, "\"", "\"\""))
 }
